@@ -196,7 +196,8 @@ func (parEngine) execute(sc *Scenario) *Outcome {
 	if len(pc.Cmd) > 0 {
 		return parExecuteCmd(sc, out)
 	}
-	serial := parseSerialDump(text)
+	// The parallel parse runs FIRST: process-wide state inside klog (caches, pools) must be met
+	// cold by the workers, not warmed up by the reference run.
 	var par ParseDump
 	spec := &ProcSpec{
 		Tape: pc.Tape,
@@ -207,7 +208,22 @@ func (parEngine) execute(sc *Scenario) *Outcome {
 			return 0, nil
 		},
 	}
-	res := runProc(spec)
+	var res ProcResult
+	if os.Getenv("VERIF_FREE") != "" {
+		// side run under the race detector: the goroutines run freely and truly in parallel
+		// (no simulator), so that unsynchronised accesses are not ordered by the scheduler
+		func() {
+			defer func() {
+				if r := recover(); r != nil {
+					res.Crashed, res.PanicValue, res.PanicSite = true, fmt.Sprint(r), "free-run"
+				}
+			}()
+			_, _ = spec.Fn()
+		}()
+	} else {
+		res = runProc(spec)
+	}
+	serial := parseSerialDump(text)
 	out.Procs = 1
 	out.Log = append(out.Log, fmt.Sprintf("par text=%s n=%d", fnv(text), pc.Workers))
 	out.Log = append(out.Log, res.logLines()...)
